@@ -130,8 +130,38 @@ def run(chk):
 
 
     run_P4(chk)
+    # FF4 (norm switch of the in-place steps, per value of `normalize`): with normalize=True every path that changes the norm resets the factor
+    # to 1, with normalize=False every store accumulates (never overwrites)
+    for mname in ("orthogonalize_site_", "diagonalize_central_"):
+        mf = O.methods[mname]
+        # the reset is required on the paths that reach a store at all (a state without central block is left alone)
+        _norm_switch_on_store_paths(chk, mf)
     from . import e10
     e10.run_U(chk, ("yastn.tn.mps._mps_obc", "yastn.tn.mps._mps_parent", "yastn.tn.mps._compression", "yastn.tn.mps._initialize"), floor1=5, floor2=1)
+
+
+def _norm_switch_on_store_paths(chk, f, obj="self", knob="normalize"):
+    """per value of the knob, on the CFG specialised on it: knob=True -> some store `obj.factor = 1` is live and no live store accumulates;
+    knob=False -> every live store multiplies obj.factor (none overwrites).  A store that exists only under `if not normalize:` leaves
+    the factor untouched for normalize=True."""
+    from ..core.cfg import CFG, specialise_expr
+    cfg = CFG(f.node)
+    me = f"{obj}.factor"
+    stores = [n for n in A.walk_local(f.node, include_self=False) if isinstance(n, ast.Assign) and len(n.targets) == 1 and A.text(n.targets[0]) == me]
+    chk.require(stores, f"{f.short}: no store to `{me}` found")
+    for val in (True, False):
+        g = cfg.specialised({knob: val})
+        live = g.reach_from({g.entry.id})
+        vals = [specialise_expr(st.value, {knob: val}) for st in stores if cfg.node_of[st].id in live]
+        if val:
+            ok = any(A.neg_const(v) == 1 for v in vals) and not any(isinstance(v, ast.BinOp) and me in A.text(v) for v in vals)
+            chk.verdict("FF4", (f, stores[0]), f"{f.short}: {knob}=True resets {me} to 1 ({[A.text(v) for v in vals]})", True if ok else False,
+                        f"{f.short}(): with {knob}=True no live statement sets `{me}` to 1 (stores reachable: {[A.text(v) for v in vals] or 'none'}): the "
+                        f"factor accumulated by earlier steps with normalize=False survives and the state is not normalised")
+        else:
+            ok = bool(vals) and all(isinstance(v, ast.BinOp) and isinstance(v.op, ast.Mult) and me in (A.text(v.left), A.text(v.right)) for v in vals)
+            chk.verdict("FF4", (f, stores[0]), f"{f.short}: {knob}=False accumulates into {me} ({[A.text(v) for v in vals]})", True if ok else False,
+                        f"{f.short}(): with {knob}=False some live store overwrites `{me}` instead of multiplying it: the norm tracked so far is lost")
 
 
 def run_P4(chk):
